@@ -24,7 +24,7 @@ def decoOf (s : String) : Option Deco :=
     | ["for_all_methods", i] => (innerOf i).map .forAll
     | _ => none
 
-def targetOf (j : Json) : Target := ⟨jB (jF j "cls"), jB (jF j "doc"), jB (jF j "full")⟩
+def targetOf (j : Json) : Target := ⟨jB (jF j "cls"), jB (jF j "doc"), jB (jF j "full"), jB (jF j "odd")⟩
 
 def memberOf : String → Option Member
   | "m" => some .method
@@ -73,6 +73,7 @@ def obsJ : Obs → Json
   | .switchError => jArr [jStr "switchError"]
   | .derived => jArr [jStr "derived"]
   | .callError => jArr [jStr "error", jStr "TypeError"]
+  | .unspecified => jArr [jStr "unspecified"]
 
 def sobsJ : SObs → Json
   | .exact o => jArr [jStr "exact", obsJ o]
@@ -81,7 +82,8 @@ def sobsJ : SObs → Json
 
 /-- case: {"env": null | "<value>", "ops": [["setenv", s] | ["unsetenv"] | ["enable"] | ["disable"] | ["factory", deco]
     | ["decorate", deco, {"cls","doc"}] | ["apply", k, {"cls","doc"}] | ["redecorate", deco, h] | ["reapply", k, h] | ["call", h, "good"|"positional"|"wrongType"]
-    | ["subclass", h] | ["callm", h, "m"|"cm"|"sm"|"pget"|"pset", "cls"|"inst", kind], …]}; targets: {"cls","doc","full"} -/
+    | ["subclass", h] | ["callm", h, "m"|"cm"|"sm"|"pget"|"pset", "cls"|"inst", kind], …]}; targets: {"cls","doc","full","odd"}
+    ("odd": an object the decorators are not made for; absent = false) -/
 def handle (c : Json) : Json :=
   let raw := jL (jF c "ops")
   let ops := raw.filterMap opOf
